@@ -432,7 +432,7 @@ func runC10(e *Env) {
 			}
 		}
 	}
-	texts = append(texts, "null", "true", "no", "1e3", "0x10", "2001-01-01", "- a", "? a", "y", "Off", ".inf", "~", "<<", "=", "\t", "a\tb", "\r", "a\r\nb", " ", "\ufeff", "\x7f", strings.Repeat("x", 200), " lead", "trail ", "a: b # c")
+	texts = append(texts, "null", "true", "no", "1e3", "0x10", "2001-01-01", "- a", "? a", "y", "Off", ".inf", "~", "<<", "=", "\t", "a\tb", "\r", "a\r\nb", " ", "\ufeff", "\x7f", strings.Repeat("x", 200), " lead", "trail ", "a: b # c", "😀", `\U0001F600`, `\\U0001F600`, `"\U0001F600"`, `\u00e9`, `\x41`, `\n`, "\u0085", "\u2028", "\u00a0", "\x1b", "\U0010FFFF")
 	for _, t := range texts {
 		if t[0] == '\n' || t[0] == '\r' {
 			continue // yaml.v3 (trusted base) does not round-trip a string that starts with a line break; chord text cannot produce one
@@ -460,7 +460,9 @@ func runC10(e *Env) {
 	syms := []string{"", "m7", "7", "dim7", "sus4", "maj9", "6"}
 	bass := []string{"", "3", "5", "b7", "#4"}
 	valsets := [][]timing.Frac{{fr(1, 1)}, {fr(1, 2), fr(1, 3)}, {fr(3, 2)}, {fr(7, 11)}}
-	metas := [][][2]string{nil, {{"bpm", "140"}}, {{"vel", "ff"}}, {{"mtr", "6/8"}}, {{"key", "F#m"}}, {{"txt", "hello world"}}, {{"lic", "la: la #1"}}, {{"mrk", "é♯"}}, {{"key", "Cb"}, {"bpm", "61"}, {"txt", "- x"}, {"vel", "pp"}, {"mtr", "5/4"}}, {{"foo", "bar"}}, {{"txt", "null"}}, {{"txt", "'q'"}}, {{"txt", "\"dq\""}}, {{"txt", "verse 1: "}}, {{"lic", "la\t"}, {"mrk", "m  "}}, {{"txt", "a  b"}}}
+	metas := [][][2]string{nil, {{"bpm", "140"}}, {{"vel", "ff"}}, {{"mtr", "6/8"}}, {{"key", "F#m"}}, {{"txt", "hello world"}}, {{"lic", "la: la #1"}}, {{"mrk", "é♯"}}, {{"key", "Cb"}, {"bpm", "61"}, {"txt", "- x"}, {"vel", "pp"}, {"mtr", "5/4"}}, {{"foo", "bar"}}, {{"txt", "null"}}, {{"txt", "'q'"}}, {{"txt", "\"dq\""}}, {{"txt", "verse 1: "}}, {{"lic", "la\t"}, {"mrk", "m  "}}, {{"txt", "a  b"}},
+		// what a YAML printer escapes, and what merely looks like an escape
+		{{"txt", "😀"}}, {{"txt", `\U0001F600`}}, {{"lic", `\\U0001F600`}}, {{"mrk", `"\U0001F600"`}}, {{"txt", `\u00e9 \x41 \n \t \\`}}, {{"txt", "a\u0085b\u2028c"}}, {{"lic", "a\u00a0nbsp"}}, {{"mrk", "e\u0301"}}, {{"txt", "𝄪 𝄫"}}, {{"txt", "\x7f\x1b"}}}
 	var pipes []c10Pipe
 	for _, r := range roots {
 		for _, s := range syms {
